@@ -26,25 +26,36 @@ path whose normal form has the (clean) components `cs`: `_delegate` answers with
 mount point (in mount order) whose components are a prefix of `cs`, and the member-relative path
 is the `/`-join of the remaining components; when no mount point is a component prefix it
 answers `(default_fs, p)` with the raw argument.  String prefix on the stored `forcedir` keys and
-component prefix coincide. -/
+component prefix coincide.  (`hn`: since /repo 48e26ed a path that contains NUL is refused before any of
+this: `mount_route_total`, `mount_nul_refused`.) -/
 theorem mount_route_component_prefix (t : List (List Str × Nat)) (ht : ∀ e ∈ t, Clean e.1)
-    (p : Str) (a : Bool) (cs : List Str) (hc : Clean cs) (hp : normpath p = .ok (mk a cs)) :
+    (p : Str) (a : Bool) (cs : List Str) (hc : Clean cs) (hn : '\x00' ∉ p) (hp : normpath p = .ok (mk a cs)) :
     Mount.delegate (tableOf t) p =
       match routeSpec t cs with
       | some (i, rest) => .ok (i, joinSlash rest)
       | none => .ok (0, p) :=
-  delegate_tableOf t ht p a cs hc hp
+  delegate_tableOf t ht p a cs hc hn hp
 
-/-- every path either fails to normalise — then `_delegate` raises the same error — or has a
+/-- every path either contains NUL — then `_delegate` refuses it with InvalidCharsInPath before
+normalising it (since /repo 48e26ed) —, or fails to normalise — `_delegate` raises the same error —, or has a
 normal form `mk a cs` with clean components, to which the previous theorem applies -/
 theorem mount_route_total (t : Mount.Table) (p : Str) :
-    (∃ e, normpath p = .err e ∧ Mount.delegate t p = .err e) ∨
-    (∃ a cs, Clean cs ∧ normpath p = .ok (mk a cs)) := by
-  cases hp : normpath p with
-  | err e => exact Or.inl ⟨e, rfl, by simp [Mount.delegate, hp]⟩
-  | ok n =>
-    obtain ⟨cs, hc, rfl⟩ := normpath_ok_clean p n hp
-    exact Or.inr ⟨_, cs, hc, rfl⟩
+    ('\x00' ∈ p ∧ Mount.delegate t p = .err .InvalidCharsInPath) ∨
+    ('\x00' ∉ p ∧ ∃ e, normpath p = .err e ∧ Mount.delegate t p = .err e) ∨
+    ('\x00' ∉ p ∧ ∃ a cs, Clean cs ∧ normpath p = .ok (mk a cs)) := by
+  by_cases hn : '\x00' ∈ p
+  · exact Or.inl ⟨hn, delegate_nul hn⟩
+  · cases hp : normpath p with
+    | err e => exact Or.inr (Or.inl ⟨hn, e, rfl, by rw [delegate_noNul hn, hp]⟩)
+    | ok n =>
+      obtain ⟨cs, hc, rfl⟩ := normpath_ok_clean p n hp
+      exact Or.inr (Or.inr ⟨hn, _, cs, hc, rfl⟩)
+
+/-- REPAIRED (/repo 48e26ed): a path that contains NUL is refused by `_delegate` itself, whatever it
+normalises to and whichever filesystem would have received it (before the repair `m1/z\0/../f` reached the
+filesystem mounted at `m1` as `f`) -/
+theorem mount_nul_refused (t : Mount.Table) (p : Str) (hn : '\x00' ∈ p) :
+    Mount.delegate t p = .err .InvalidCharsInPath := delegate_nul hn
 
 /-- `routeSpec` is "the first mount whose components are a prefix", spelled out -/
 theorem mount_route_first_match (t : List (List Str × Nat)) (cs : List Str) (i : Nat) (rest : List Str) :
@@ -67,9 +78,9 @@ theorem mount_a_vs_ab :
 /-- in general: a mount point never captures a path whose components it does not prefix, however
 the names overlap as strings -/
 theorem mount_no_string_prefix_capture (ms cs : List Str) (i : Nat) (hm : Clean ms) (hc : Clean cs)
-    (h : ¬ ms <+: cs) (p : Str) (a : Bool) (hp : normpath p = .ok (mk a cs)) :
+    (h : ¬ ms <+: cs) (p : Str) (a : Bool) (hn : '\x00' ∉ p) (hp : normpath p = .ok (mk a cs)) :
     Mount.delegate (tableOf [(ms, i)]) p = .ok (0, p) := by
-  rw [mount_route_component_prefix [(ms, i)] (by simpa using hm) p a cs hc hp]
+  rw [mount_route_component_prefix [(ms, i)] (by simpa using hm) p a cs hc hn hp]
   have : routeSpec [(ms, i)] cs = none := (routeSpec_none_iff _ _).2 (by simpa using h)
   rw [this]
 
@@ -250,6 +261,37 @@ theorem mount_frame_two (s s' : Mount.MState) (op : Ref.Op) (src dst : Str) (ow 
     (h : Mount.step s op = some (s', out, tr)) (j : Nat)
     (hs : routeMember s.mounts src ≠ some j) (hd : routeMember s.mounts dst ≠ some j) :
     s'.fs j = s.fs j := by
+  -- a path argument with NUL: `validatepath` (→ `_delegate`) refuses it, no member is called
+  by_cases hnul : '\x00' ∈ src ∨ '\x00' ∈ dst
+  · have hrun : ∀ k : Prog, ((Prog.validate src (Prog.validate dst k)).run Mount.sem s).1 = s := by
+      intro k
+      have hv : ∀ q, '\x00' ∈ q → ∃ e t, Mount.sem.validate s q = (.err e, t) := by
+        intro q hq
+        simp only [Mount.sem, Mount.validate]
+        split
+        · exact ⟨_, _, rfl⟩
+        · rw [delegate_nul hq]; exact ⟨_, _, rfl⟩
+      simp only [Prog.run]
+      rcases hnul with h1 | h2
+      · obtain ⟨e, t, he⟩ := hv src h1
+        rw [he]
+      · obtain ⟨e, t, he⟩ := hv dst h2
+        cases hvs : Mount.sem.validate s src with
+        | mk r t' =>
+          cases r with
+          | err e' => rfl
+          | ok u => simp only [he]
+    rcases hop with rfl | rfl
+    · simp only [Mount.step, Mount.prog, commonProg, Option.map, Option.some.injEq] at h
+      have : ((baseMove src dst ow).run Mount.sem s).1 = s := hrun _
+      rw [h] at this
+      exact congrArg (fun x => x.fs j) this
+    · simp only [Mount.step, Mount.prog, commonProg, Option.map, Option.some.injEq] at h
+      have : ((baseCopy src dst ow).run Mount.sem s).1 = s := hrun _
+      rw [h] at this
+      exact congrArg (fun x => x.fs j) this
+  have hns : '\x00' ∉ src := fun h => hnul (Or.inl h)
+  have hnd : '\x00' ∉ dst := fun h => hnul (Or.inr h)
   let P : Prim → Prop := fun q => q.path = absnorm src ∨ q.path = absnorm dst
   let V : Str → Prop := fun q => q = src ∨ q = dst
   have hbody : moveBody P (absnorm src) (absnorm dst) :=
@@ -269,8 +311,8 @@ theorem mount_frame_two (s s' : Mount.MState) (op : Ref.Op) (src dst : Str) (ow 
           have hm := MountL.routeMember_of_delegate hdl
           rw [MountL.routeMember_routePath, hi] at hm
           rcases hq with hq | hq
-          · left; rw [← MountL.routeMember_absnorm, ← hq]; exact hm
-          · right; rw [← MountL.routeMember_absnorm, ← hq]; exact hm)
+          · left; rw [← MountL.routeMember_absnorm _ _ hns, ← hq]; exact hm
+          · right; rw [← MountL.routeMember_absnorm _ _ hnd, ← hq]; exact hm)
       (fun s' q _ _ c hc => Or.inl (MountL.validate_calls s' q c hc).1)
       pr s rfl hP hV
     exact this.1
